@@ -38,11 +38,11 @@ func Specs() map[string]*PropSpec {
 		Stubs:       []string{"c09AK", "c09Bank", "SDK staking getters (GetDelegatorBonded, GetDelegatorUnbonding, BondDenom)"},
 	}
 	fk := func(fn string, kv ...string) Inst { return Inst{Pkg: "x/feemarket/keeper", Fn: fn, Params: pm(kv...)} }
-	c17 := []Inst{fk("VerifC17_Formula"), fk("VerifC17_Bounds"), fk("VerifC17_Monotone"), fk("VerifC17_BeginBlock"), fk("VerifC17_EndBlock")}
+	c17 := []Inst{fk("VerifC17_Formula"), fk("VerifC17_Bounds"), fk("VerifC17_Monotone"), fk("VerifC17_BeginBlock"), fk("VerifC17_EndBlock"), {Pkg: "app/ante/evm", Fn: "VerifC17_GasWantedRecorded", Params: pm(), EngineReplay: true}}
 	m["C17"] = &PropSpec{
-		ID: "C17", Pkgs: []string{"./x/feemarket/keeper"}, Quick: c17, Thorough: c17,
+		ID: "C17", Pkgs: []string{"./x/feemarket/keeper", "./app/ante/evm"}, Quick: c17, Thorough: c17,
 		Bounds: map[string]string{
-			"quick":    "one block, fully symbolic: parent base fee in [0,2^128), gas figure any uint64, MaxGas nil / -1 / [0,2^62], elasticity and denominator any uint32 >= 1, min gas price any Dec in [0,10^42], height and enable height in [0,2^40]; monotonicity over two gas figures; EndBlock: gasWanted < 2^63, gasUsed <= limit <= 2^62, multiplier in [0,1]",
+			"quick":    "one block, fully symbolic: parent base fee in [0,2^128), gas figure any uint64, MaxGas nil / -1 / [0,2^62], elasticity and denominator any uint32 >= 1, min gas price any Dec in [0,10^42], height and enable height in [0,2^40]; monotonicity over two gas figures; EndBlock: gasWanted < 2^63, gasUsed <= limit <= 2^62, multiplier in [0,1]; the recording side: the ante GasWantedDecorator with the real fee-market keeper (any height, enable height, NoBaseFee, block gas limit, previous counter, tx gas) adds the declared gas exactly in the blocks CalculateBaseFee treats as EIP-1559 blocks",
 			"thorough": "same (the single-step query is already unbounded in the value dimension)",
 		},
 		Outside: []string{"block gas limit below the elasticity multiplier (target 0: the real code divides by zero once any gas is wanted)", "elasticity multiplier 0 (not rejected by Params.Validate; observation in DESIGN.md)", "base fee >= 2^128", "block sequences longer than one step (monotone/bounds are single-step facts; base>=min is re-established by every step, checked in Bounds)", "gasWanted >= 2^63 (EndBlock returns early)"},
@@ -183,7 +183,7 @@ func Specs() map[string]*PropSpec {
 			"quick":    "one message call or contract creation through the real ApplyMessageWithConfig + RefundGas with the EVM interpreter stubbed to an arbitrary outcome (gas limit < 2^62, any leftover, refund counter, VM error, intrinsic gas; multiplier any Dec in [0,1]; price < 2^128); VerifyFee for legacy and dynamic-fee data; eth min-gas-price decorator over <= 2 messages; Cosmos min-gas-price decorator over 5 fee shapes",
 			"thorough": "eth min-gas-price decorator over <= 3 messages",
 		},
-		Outside:     []string{"contract creation (nonce bump through the account keeper)", "EthGasConsumeDecorator / DeductTxCostsFromUserBalance (SDK DeductFees): the deduction amount is VerifyFee's result, which is decided", "multi-message transactions through ApplyTransaction (hooks, bloom, receipts)", "what the real interpreter returns (go-ethereum): any outcome within its contract is covered"},
+		Outside:     []string{"EthGasConsumeDecorator / DeductTxCostsFromUserBalance (SDK DeductFees): the deduction amount is VerifyFee's result, which is decided", "multi-message transactions through ApplyTransaction (hooks, bloom, receipts)", "what the real interpreter returns (go-ethereum): any outcome within its contract is covered"},
 		Assumptions: []string{"(*vm.EVM).Call / Create, Keeper.NewEVM, GetEthIntrinsicGas replaced by a stub: leftover <= gas given, arbitrary error, arbitrary refund counter", "the up-front deduction of gasLimit x price sits in the fee collector (ante handler, decided separately by VerifyFee)", "bank stub moves coins exactly as asked", "GasUsed counterexamples are confirmed by concrete re-execution in the SSA interpreter (a native build cannot stub the EVM)"},
 		Stubs:       []string{"c07NewEVM/c07Call/c07Create/c07Intrinsic", "c07Bank", "c07FeeMarket", "vEVMKeeper", "vFeeMarket"},
 	}
